@@ -173,4 +173,15 @@ theorem running_meets_spec (e : Env) (he : GenSpec e) (hp hn : ℕ → ℕ) (hhn
     have := Nat.findGreatest_le (P := Nat.Prime) (p - 1)
     exact ⟨s', h1, h2, by omega⟩
 
+/-- the values, without reference to the model: `k` queries of the iterator "largest prime `≤ n`" -/
+theorem iterPrevs_real (e : Env) (he : GenSpec e) (hp hn : ℕ → ℕ) :
+    ∀ k n, n ≤ umax → iterPrevs (realIter e hp hn) k n = iterPrevs ⟨Nat.findGreatest Nat.Prime, fun _ => []⟩ k n := by
+  intro k
+  induction k with
+  | zero => intro n _; rfl
+  | succ k ih =>
+    intro n hnu
+    have := Nat.findGreatest_le (P := Nat.Prime) n
+    rw [iterPrevs, iterPrevs, realIter_prev e he hp hn n hnu, ih _ (by omega)]
+
 end Pc.It
